@@ -1,35 +1,13 @@
-import ParryModel.Field
-import ParryModel.C04.Model
-import Mathlib.Analysis.Real.Sqrt
+import ParryModel.C04.Lemmas
 /-!
 # C04 property theorems: closed-form ray casts, for every linearly ordered field and **every non-zero
-direction (no unit-length assumption)**.
-
-Specification vocabulary (the part a reader must trust):
-* `FirstHit S pt max res` — `res = some t`: `t ∈ [0,max]`, the point `pt t` is in `S` and no earlier parameter
-  `s ∈ [0,t)` is; `res = none`: no parameter of `[0,max]` is in `S`.
-* `FirstHitU` — the same without an upper bound (`max = +∞`).
-* `ExitHit S pt t` — a ray that starts inside `S` leaves it at `t`: all of `[0,t]` is in `S`, nothing after `t` is.
-* shapes as sets are the `Mem` predicates of `Shapes.lean`; boundaries are spelled out per shape.
+direction (no unit-length assumption)**.  Vocabulary (`FirstHit`, `FirstHitU`, `ExitHit`, `BallAt`, `SphereAt`,
+`rayPt`, …) is defined and explained in `C04/Lemmas.lean`.
 -/
 namespace C04
 open Model
 
 variable {K : Type} [Field K] [LinearOrder K] [IsStrictOrderedRing K] (sq : K → K)
-
-/-- first parameter of `[0,max]` at which the curve `pt` is in `S` (`none`: there is none) -/
-def FirstHit (S : V3 K → Prop) (pt : K → V3 K) (max : K) : Option K → Prop
-  | some t => 0 ≤ t ∧ t ≤ max ∧ S (pt t) ∧ ∀ s, 0 ≤ s → s < t → ¬ S (pt s)
-  | none => ∀ s, 0 ≤ s → s ≤ max → ¬ S (pt s)
-
-/-- `FirstHit` on the unbounded ray `[0,+∞)` -/
-def FirstHitU (S : V3 K → Prop) (pt : K → V3 K) : Option K → Prop
-  | some t => 0 ≤ t ∧ S (pt t) ∧ ∀ s, 0 ≤ s → s < t → ¬ S (pt s)
-  | none => ∀ s, 0 ≤ s → ¬ S (pt s)
-
-/-- the ray starts in `S` and leaves it for good at parameter `t` -/
-def ExitHit (S : V3 K → Prop) (pt : K → V3 K) (t : K) : Prop :=
-  0 ≤ t ∧ (∀ s, 0 ≤ s → s ≤ t → S (pt s)) ∧ ∀ s, t < s → ¬ S (pt s)
 
 /-- A first hit is unique: two results satisfying `FirstHit` for the same data coincide. -/
 theorem firstHit_unique (S : V3 K → Prop) (pt : K → V3 K) (max : K) (r₁ r₂ : Option K)
@@ -69,185 +47,6 @@ theorem firstHit_scale (S : V3 K → Prop) (pt : K → V3 K) (max l : K) (hl : 0
 theorem real_lawfulSqrt : LawfulSqrt Real.sqrt := ⟨fun x _ => Real.sqrt_nonneg x, fun _ h => Real.mul_self_sqrt h⟩
 
 /-! ## Ball (`ray_toi_with_ball`, `Ball::cast_local_ray*`) -/
-
-private theorem quad_root (a b c w s : K) (hw : w * w = b * b - a * c) :
-    a * (a * s * s + 2 * b * s + c) = (a * s + b - w) * (a * s + b + w) := by
-  linear_combination (1 : K) * hw
-
-private theorem quad_zero (a b c w t : K) (ha : a ≠ 0) (hw : w * w = b * b - a * c)
-    (h : a * t + b - w = 0 ∨ a * t + b + w = 0) : a * t * t + 2 * b * t + c = 0 := by
-  have h1 := quad_root a b c w t hw
-  have : a * (a * t * t + 2 * b * t + c) = 0 := by
-    rw [h1]; rcases h with h | h <;> rw [h] <;> ring
-  rcases mul_eq_zero.1 this with h' | h'
-  · exact absurd h' ha
-  · exact h'
-
-/-- scalar skeleton of `ray_toi_with_ball` (same branches; `w` stands for `sqrt(delta)`) -/
-private def ballScalar (a b c w : K) (solid : Bool) : Bool × Option K :=
-  if 0 < c ∧ 0 < b then (false, none)
-  else if b * b - a * c < 0 then (false, none)
-  else if (-b - w) / a ≤ 0 then
-    (if solid then (true, some 0) else (true, some ((-b + w) / a)))
-  else (false, some ((-b - w) / a))
-
-private theorem ballScalar_spec (a b c w : K) (solid : Bool) (ha : 0 < a)
-    (hw0 : 0 ≤ b * b - a * c → 0 ≤ w) (hww : 0 ≤ b * b - a * c → w * w = b * b - a * c) :
-    let g := fun s : K => a * s * s + 2 * b * s + c
-    let res := ballScalar a b c w solid
-    (res.1 = true ↔ c ≤ 0) ∧
-    (res.1 = false → match res.2 with
-        | some t => 0 < t ∧ g t = 0 ∧ a * t + b ≤ 0 ∧ ∀ s, 0 ≤ s → s < t → 0 < g s
-        | none => ∀ s, 0 ≤ s → 0 < g s) ∧
-    (res.1 = true → solid = true → res.2 = some 0) ∧
-    (res.1 = true → solid = false → ∃ t, res.2 = some t ∧ 0 ≤ t ∧ g t = 0 ∧ 0 ≤ a * t + b ∧
-        (∀ s, 0 ≤ s → s ≤ t → g s ≤ 0) ∧ (c < 0 → ∀ s, 0 ≤ s → s < t → g s < 0) ∧ ∀ s, t < s → 0 < g s) := by
-  intro g res
-  have hgpos : ∀ s, 0 < a * g s → 0 < g s := fun s h => by
-    rcases lt_trichotomy 0 (g s) with h' | h' | h'
-    · exact h'
-    · rw [← h'] at h; simp at h
-    · nlinarith
-  simp only [res, ballScalar]
-  split_ifs with h1 h2 h3 h4
-  · -- c > 0, b > 0
-    refine ⟨by simp; exact h1.1, fun _ => ?_, by simp, by simp⟩
-    intro s hs
-    show 0 < a * s * s + 2 * b * s + c
-    nlinarith [mul_nonneg (mul_nonneg ha.le hs) hs, mul_nonneg h1.2.le hs, h1.1]
-  · -- delta < 0
-    have hc : 0 < c := by nlinarith [mul_self_nonneg b]
-    refine ⟨by simp; exact hc, fun _ => ?_, by simp, by simp⟩
-    intro s hs
-    apply hgpos
-    show 0 < a * (a * s * s + 2 * b * s + c)
-    nlinarith [mul_self_nonneg (a * s + b)]
-  · -- inside, solid
-    push Not at h2
-    have w0 := hw0 h2; have ww := hww h2
-    have hbw : 0 ≤ b + w := by
-      rw [div_le_iff₀ ha] at h3; linarith
-    have hc : c ≤ 0 := by
-      by_contra hc; push Not at hc
-      have hb : b ≤ 0 := by by_contra hb; push Not at hb; exact h1 ⟨hc, hb⟩
-      nlinarith [mul_pos ha hc]
-    refine ⟨by simp; exact hc, by simp, by simp, by simp [h4]⟩
-  · -- inside, not solid
-    push Not at h2
-    have w0 := hw0 h2; have ww := hww h2
-    have hbw : 0 ≤ b + w := by
-      rw [div_le_iff₀ ha] at h3; linarith
-    have hc : c ≤ 0 := by
-      by_contra hc; push Not at hc
-      have hb : b ≤ 0 := by by_contra hb; push Not at hb; exact h1 ⟨hc, hb⟩
-      nlinarith [mul_pos ha hc]
-    have hwb : b ≤ w := by nlinarith [mul_nonneg ha.le (neg_nonneg.2 hc)]
-    refine ⟨by simp; exact hc, by simp, by simp [h4], fun _ _ => ⟨_, rfl, ?_, ?_, ?_, ?_, ?_, ?_⟩⟩
-    · exact div_nonneg (by linarith) ha.le
-    · exact quad_zero a b c w _ ha.ne' ww (Or.inl (by rw [mul_div_cancel₀ _ ha.ne']; ring))
-    · rw [mul_div_cancel₀ _ ha.ne']; linarith
-    · intro s hs hst
-      rw [le_div_iff₀ ha] at hst
-      have h := quad_root a b c w s ww
-      have : a * g s ≤ 0 := by
-        rw [show g s = a * s * s + 2 * b * s + c from rfl, h]
-        apply mul_nonpos_of_nonpos_of_nonneg <;> nlinarith [mul_nonneg ha.le hs]
-      by_contra hg; push Not at hg
-      nlinarith [mul_pos ha hg]
-    · intro hc' s hs hst
-      rw [lt_div_iff₀ ha] at hst
-      have hbw' : 0 < b + w := by nlinarith [mul_pos ha (neg_pos.2 hc')]
-      have h := quad_root a b c w s ww
-      have : a * g s < 0 := by
-        rw [show g s = a * s * s + 2 * b * s + c from rfl, h]
-        apply mul_neg_of_neg_of_pos <;> nlinarith [mul_nonneg ha.le hs]
-      by_contra hg; push Not at hg
-      nlinarith [mul_nonneg ha.le hg]
-    · intro s hst
-      rw [div_lt_iff₀ ha] at hst
-      apply hgpos
-      rw [show g s = a * s * s + 2 * b * s + c from rfl, quad_root a b c w s ww]
-      apply mul_pos <;> nlinarith
-  · -- outside, hit
-    push Not at h2 h3
-    have w0 := hw0 h2; have ww := hww h2
-    have hc0 : 0 < c := by
-      by_contra hc; push Not at hc
-      rw [lt_div_iff₀ ha] at h3
-      nlinarith [mul_nonneg ha.le (neg_nonneg.2 hc)]
-    refine ⟨by simp; exact hc0, fun _ => ⟨h3, ?_, ?_, ?_⟩, by simp, by simp⟩
-    · exact quad_zero a b c w _ ha.ne' ww (Or.inr (by rw [mul_div_cancel₀ _ ha.ne']; ring))
-    · rw [mul_div_cancel₀ _ ha.ne']; linarith
-    · intro s hs hst
-      rw [lt_div_iff₀ ha] at hst
-      apply hgpos
-      rw [show g s = a * s * s + 2 * b * s + c from rfl, quad_root a b c w s ww]
-      apply mul_pos_of_neg_of_neg <;> nlinarith
-
-/-- the ball of radius `r` centred at `c`, as a set: `|p − c|² ≤ r²` (`Ball.Mem3` of `Shapes.lean`, translated) -/
-def BallAt (c : V3 K) (r : K) (p : V3 K) : Prop :=
-  letI := fieldNum K sq
-  (Ball.mk r).Mem3 (p.sub c)
-/-- the sphere (boundary of the ball): `|p − c|² = r²` -/
-def SphereAt (c : V3 K) (r : K) (p : V3 K) : Prop :=
-  letI := fieldNum K sq
-  (p.sub c).normSq = r * r
-/-- the curve `s ↦ o + s·d` of a ray (model's `Ray::point_at`) -/
-def rayPt (ray : Ray3 K) : K → V3 K := fun s =>
-  letI := fieldNum K sq
-  ray.pointAt s
-
-private theorem ball_poly (c : V3 K) (ray : Ray3 K) (r s : K) :
-    letI := fieldNum K sq
-    ((rayPt sq ray s).sub c).normSq - r * r
-      = ray.d.normSq * s * s + 2 * ((ray.o.sub c).dot ray.d) * s + ((ray.o.sub c).normSq - r * r) := by
-  simp only [rayPt, Ray3.pointAt, V3.add, V3.sub, V3.smul, V3.normSq, V3.dot]; ring
-
-private theorem rayToiWithBall_eq (c : V3 K) (r : K) (ray : Ray3 K) (solid : Bool) :
-    letI := fieldNum K sq
-    0 < ray.d.normSq →
-    rayToiWithBall c r ray solid =
-      ballScalar ray.d.normSq ((ray.o.sub c).dot ray.d) ((ray.o.sub c).normSq - r * r)
-        (sq (((ray.o.sub c).dot ray.d) * ((ray.o.sub c).dot ray.d) - ray.d.normSq * ((ray.o.sub c).normSq - r * r))) solid := by
-  intro ha
-  have hne : @neq K (fieldNum K sq) (@V3.normSq K (fieldNum K sq) ray.d) 0 = false := by
-    simp only [neq, Bool.and_eq_false_iff, decide_eq_false_iff_not, not_le]
-    exact Or.inl ha
-  simp only [rayToiWithBall, ballScalar, hne]
-  rfl
-
-/-- all four facts about `ray_toi_with_ball` at once, in terms of `g(s) = |o + s·d − c|² − r²` -/
-private theorem ball_core (hs : LawfulSqrt sq) (c : V3 K) (r : K) (ray : Ray3 K) (solid : Bool) :
-    letI := fieldNum K sq
-    0 < ray.d.normSq →
-    let g := fun s : K => ((rayPt sq ray s).sub c).normSq - r * r
-    let a := ray.d.normSq
-    let b := (ray.o.sub c).dot ray.d
-    let res := rayToiWithBall c r ray solid
-    (res.1 = true ↔ g 0 ≤ 0) ∧
-    (res.1 = false → match res.2 with
-        | some t => 0 < t ∧ g t = 0 ∧ a * t + b ≤ 0 ∧ ∀ s, 0 ≤ s → s < t → 0 < g s
-        | none => ∀ s, 0 ≤ s → 0 < g s) ∧
-    (res.1 = true → solid = true → res.2 = some 0) ∧
-    (res.1 = true → solid = false → ∃ t, res.2 = some t ∧ 0 ≤ t ∧ g t = 0 ∧ 0 ≤ a * t + b ∧
-        (∀ s, 0 ≤ s → s ≤ t → g s ≤ 0) ∧ (g 0 < 0 → ∀ s, 0 ≤ s → s < t → g s < 0) ∧ ∀ s, t < s → 0 < g s) := by
-  intro ha
-  have hp := ball_poly sq c ray r
-  have := ballScalar_spec (@V3.normSq K (fieldNum K sq) ray.d) (@V3.dot K (fieldNum K sq) (@V3.sub K (fieldNum K sq) ray.o c) ray.d)
-    (@V3.normSq K (fieldNum K sq) (@V3.sub K (fieldNum K sq) ray.o c) - r * r) (sq _) solid ha (hs.nonneg _) (hs.sq_mul _)
-  simp only [rayToiWithBall_eq sq c r ray solid ha, hp, mul_zero, zero_add]
-  exact this
-
-private theorem ballAt_iff (c : V3 K) (r : K) (p : V3 K) :
-    letI := fieldNum K sq
-    BallAt sq c r p ↔ (p.sub c).normSq - r * r ≤ 0 := by
-  unfold BallAt Ball.Mem3; exact sub_nonpos.symm
-private theorem sphereAt_iff (c : V3 K) (r : K) (p : V3 K) :
-    letI := fieldNum K sq
-    SphereAt sq c r p ↔ (p.sub c).normSq - r * r = 0 := by
-  unfold SphereAt; exact sub_eq_zero.symm
-private theorem rayPt_zero (ray : Ray3 K) : rayPt sq ray 0 = ray.o := by
-  simp [rayPt, Ray3.pointAt, V3.add, V3.smul]
 
 /-- **Ball, `inside` flag.** For every non-zero direction, the flag returned by `ray_toi_with_ball` is exactly
 membership of the ray origin in the (closed) ball. -/
@@ -325,10 +124,437 @@ theorem ball_nonsolid_exit (hs : LawfulSqrt sq) (c : V3 K) (r : K) (ray : Ray3 K
   exact absurd ((sphereAt_iff sq c r _).1 hsp) (ne_of_lt (h6 h0 s a b))
 
 
+/-- casting along `l·d` re-parametrises the ray: `pt_{l·d}(s) = pt_d(l·s)` -/
+theorem rayPt_scale (ray : Ray3 K) (l s : K) :
+    letI := fieldNum K sq
+    rayPt sq ⟨ray.o, ray.d.smul l⟩ s = rayPt sq ray (l * s) := by
+  simp only [rayPt, Ray3.pointAt, V3.add, V3.smul, mul_assoc]
+
+/-- **`toi_units`, generic form.** If a caster returns the first hit of a set `S` both for `(o, d, max)` and for
+`(o, l·d, max/l)`, `l > 0`, then the second result is the first divided by `l` (and `None` ↔ `None`). -/
+theorem toi_units_of_firstHit (S : V3 K → Prop) (ray : Ray3 K) (l max : K) (hl : 0 < l) (r r' : Option K) :
+    letI := fieldNum K sq
+    FirstHit S (rayPt sq ray) max r → FirstHit S (rayPt sq ⟨ray.o, ray.d.smul l⟩) (max / l) r' →
+    r' = r.map (· / l) := by
+  intro h h'
+  have e : rayPt sq ⟨ray.o, @V3.smul K (fieldNum K sq) ray.d l⟩ = fun s => rayPt sq ray (l * s) := by
+    funext s; exact rayPt_scale sq ray l s
+  rw [e] at h'
+  exact firstHit_unique _ _ _ _ _ h' (firstHit_scale S (rayPt sq ray) max l hl r h)
+
+/-- the local ray of a posed cast is the world ray seen through the inverse pose: `pt_local(s) = m⁻¹ • pt_world(s)`
+(holds for every quaternion, unit or not: the rotation formula is linear) -/
+theorem rayPt_invTransform (m : Iso3 K) (ray : Ray3 K) (s : K) :
+    letI := fieldNum K sq
+    rayPt sq (ray.invTransform m) s = m.invAct (rayPt sq ray s) := by
+  simp only [rayPt, Ray3.pointAt, Ray3.invTransform, Iso3.invAct, Iso3.invRot, Iso3.rotQ, Iso3.qv, V3.add, V3.sub, V3.smul,
+    V3.cross, V3.neg, fieldNum_two]
+  congr 1 <;> ring
+
+
+/-- filtering an unbounded first hit by `t ≤ max` gives the first hit on `[0,max]` -/
+theorem firstHitU_filter (S : V3 K → Prop) (pt : K → V3 K) (max : K) (r : Option K) (h : FirstHitU S pt r) :
+    FirstHit S pt max (r.filter fun t => decide (t ≤ max)) := by
+  cases r with
+  | none => exact fun s h1 _ => h s h1
+  | some t =>
+    obtain ⟨h1, h2, h3⟩ := h
+    by_cases hm : t ≤ max
+    · have hf : (some t).filter (fun t => decide (t ≤ max)) = some t := by simp [Option.filter, hm]
+      rw [hf]
+      exact ⟨h1, hm, h2, h3⟩
+    · have hf : (some t).filter (fun t => decide (t ≤ max)) = none := by simp [Option.filter, hm]
+      rw [hf]
+      intro s hs hsm
+      exact h3 s hs (lt_of_le_of_lt hsm (not_le.1 hm))
+
+theorem lawfulSqrt_mul_self (hs : LawfulSqrt sq) (r : K) (hr : 0 ≤ r) : sq (r * r) = r :=
+  (mul_self_inj (hs.nonneg _ (mul_self_nonneg r)) hr).1 (hs.sq_mul _ (mul_self_nonneg r))
+
+/-- `BallAt` at the origin is `Ball.Mem3` -/
+theorem ballAt_zero (r : K) (p : V3 K) :
+    letI := fieldNum K sq
+    BallAt sq V3.zero r p ↔ (Ball.mk r).Mem3 p := by
+  unfold BallAt; rw [sub_zero_v3]
+
+/-- **Ball::cast_local_ray, solid.** For every non-zero (not necessarily unit) direction and every `max_toi`: the
+result is the first hit of the solid ball on `[0, max_toi]` — `Some t` ⇒ `0 ≤ t ≤ max_toi`, `o + t·d ∈ ball`, no earlier
+point in the ball; `None` ⇒ no point of the segment `[0,max_toi]` is in the ball. -/
+theorem ball_cast_solid_firstHit (hs : LawfulSqrt sq) (s : Ball K) (ray : Ray3 K) (max : K) :
+    letI := fieldNum K sq
+    0 < ray.d.normSq →
+    FirstHit (s.Mem3) (rayPt sq ray) max (s.castLocalRay ray max true) := by
+  intro ha
+  have h := firstHitU_filter _ _ max _ (ball_solid_firstHit sq hs (@V3.zero K (fieldNum K sq)) s.r ray ha)
+  have e : BallAt sq (@V3.zero K (fieldNum K sq)) s.r = @Ball.Mem3 K (fieldNum K sq) s := by
+    funext p; exact propext (ballAt_zero sq s.r p)
+  rw [e] at h; exact h
+
+/-- **Ball::cast_local_ray, origin outside (both `solid` flags).** Same statement; additionally a reported hit has `t > 0`
+and lies on the sphere. -/
+theorem ball_cast_outside_firstHit (hs : LawfulSqrt sq) (s : Ball K) (ray : Ray3 K) (max : K) (solid : Bool) :
+    letI := fieldNum K sq
+    0 < ray.d.normSq → ¬ s.Mem3 ray.o →
+    FirstHit (s.Mem3) (rayPt sq ray) max (s.castLocalRay ray max solid) ∧
+    ∀ t, s.castLocalRay ray max solid = some t → 0 < t ∧ SphereAt sq V3.zero s.r (rayPt sq ray t) := by
+  intro ha hout
+  have e : BallAt sq (@V3.zero K (fieldNum K sq)) s.r = @Ball.Mem3 K (fieldNum K sq) s := by
+    funext p; exact propext (ballAt_zero sq s.r p)
+  have hout' : ¬ BallAt sq (@V3.zero K (fieldNum K sq)) s.r ray.o := by rw [e]; exact hout
+  obtain ⟨h1, h2⟩ := ball_outside_firstHit sq hs (@V3.zero K (fieldNum K sq)) s.r ray solid ha hout'
+  have h := firstHitU_filter _ _ max _ h1
+  rw [e] at h
+  refine ⟨h, fun t ht => h2 t ?_⟩
+  simp only [Ball.castLocalRay] at ht
+  exact (Option.filter_eq_some_iff.1 ht).1
+
+/-- **Ball::cast_local_ray, `solid = false`, origin in the ball.** `Some t` ⇒ `t ≤ max_toi`, the hit point is on the
+sphere and `t` is the exit parameter (`[0,t]` inside, everything later outside). `None` ⇒ the whole segment `[0,max_toi]`
+stays in the ball and — if the origin is not itself on the sphere — never touches the sphere. -/
+theorem ball_cast_nonsolid_inside (hs : LawfulSqrt sq) (s : Ball K) (ray : Ray3 K) (max : K) :
+    letI := fieldNum K sq
+    0 < ray.d.normSq → s.Mem3 ray.o →
+    match s.castLocalRay ray max false with
+    | some t => t ≤ max ∧ SphereAt sq V3.zero s.r (rayPt sq ray t) ∧ ExitHit s.Mem3 (rayPt sq ray) t
+    | none => (∀ u, 0 ≤ u → u ≤ max → s.Mem3 (rayPt sq ray u)) ∧
+        (¬ SphereAt sq V3.zero s.r ray.o → ∀ u, 0 ≤ u → u ≤ max → ¬ SphereAt sq V3.zero s.r (rayPt sq ray u)) := by
+  intro ha hin
+  have e : BallAt sq (@V3.zero K (fieldNum K sq)) s.r = @Ball.Mem3 K (fieldNum K sq) s := by
+    funext p; exact propext (ballAt_zero sq s.r p)
+  have hin' : BallAt sq (@V3.zero K (fieldNum K sq)) s.r ray.o := by rw [e]; exact hin
+  obtain ⟨t, h1, h2, h3, h4⟩ := ball_nonsolid_exit sq hs (@V3.zero K (fieldNum K sq)) s.r ray ha hin'
+  rw [e] at h3
+  simp only [Ball.castLocalRay, h1]
+  by_cases hm : t ≤ max
+  · have hf : (some t).filter (fun t => decide (t ≤ max)) = some t := by simp [Option.filter, hm]
+    rw [hf]
+    exact ⟨hm, h2, h3⟩
+  · have hf : (some t).filter (fun t => decide (t ≤ max)) = none := by simp [Option.filter, hm]
+    rw [hf]
+    push Not at hm
+    exact ⟨fun u hu hum => h3.2.1 u hu (le_trans hum hm.le), fun hns u hu hum => h4 hns u hu (lt_of_le_of_lt hum hm)⟩
+
+
+/-- **Ball normal.** For `r > 0` and a non-zero direction: whenever `ray_toi_and_normal_with_ball` reports a hit that is
+not the "solid, origin inside, toi = 0" case, the normal is the unit radial vector at the hit point —
+`n = (p − c)/r` (outward) for an origin outside, `n = −(p − c)/r` for the exit of a non-solid cast — and it faces
+the ray: `n·d ≤ 0`.  The time is the one of `ray_toi_with_ball`. -/
+theorem ball_normal_spec (hs : LawfulSqrt sq) (c : V3 K) (r : K) (ray : Ray3 K) (solid : Bool) :
+    letI := fieldNum K sq
+    0 < r → 0 < ray.d.normSq →
+    ∀ h, (rayToiAndNormalWithBall c r ray solid).2 = some h →
+      (rayToiWithBall c r ray solid).2 = some h.toi ∧
+      (rayToiAndNormalWithBall c r ray solid).1 = (rayToiWithBall c r ray solid).1 ∧
+      (¬ ((rayToiWithBall c r ray solid).1 = true ∧ solid = true) →
+        h.n.smul r = (if (rayToiWithBall c r ray solid).1 then ((rayPt sq ray h.toi).sub c).neg else (rayPt sq ray h.toi).sub c) ∧
+        h.n.normSq = 1 ∧ h.n.dot ray.d ≤ 0) := by
+  intro hr ha h hh
+  have core := ball_core sq hs c r ray solid ha
+  simp only [rayToiAndNormalWithBall] at hh ⊢
+  rcases hres : @rayToiWithBall K (fieldNum K sq) c r ray solid with ⟨ins, inter⟩
+  rw [hres] at hh core
+  simp only at hh core ⊢
+  cases inter with
+  | none => simp at hh
+  | some t =>
+    simp only [Option.map_some, Option.some.injEq] at hh
+    subst hh
+    refine ⟨rfl, trivial, ?_⟩
+    intro hns
+    dsimp only
+    -- the hit is on the sphere
+    have hg : (@V3.normSq K (fieldNum K sq) (@V3.sub K (fieldNum K sq) (rayPt sq ray t) c)) = r * r ∧
+        (if ins then 0 ≤ @V3.normSq K (fieldNum K sq) ray.d * t + @V3.dot K (fieldNum K sq) (@V3.sub K (fieldNum K sq) ray.o c) ray.d
+         else @V3.normSq K (fieldNum K sq) ray.d * t + @V3.dot K (fieldNum K sq) (@V3.sub K (fieldNum K sq) ray.o c) ray.d ≤ 0) := by
+      cases ins with
+      | false =>
+        have := core.2.1 rfl
+        simp only at this
+        exact ⟨by linarith [this.2.1], this.2.2.1⟩
+      | true =>
+        have hsol : solid = false := by
+          cases solid with
+          | false => rfl
+          | true => exact absurd ⟨rfl, rfl⟩ hns
+        obtain ⟨t', ht', _, h3, h4, _⟩ := core.2.2.2 rfl hsol
+        simp only [Option.some.injEq] at ht'
+        subst ht'
+        exact ⟨by linarith [h3], h4⟩
+    obtain ⟨hsph, hsign⟩ := hg
+    have hnorm : @V3.norm K (fieldNum K sq) (@V3.sub K (fieldNum K sq) (rayPt sq ray t) c) = r := by
+      show sq _ = r
+      rw [hsph]; exact lawfulSqrt_mul_self sq hs r hr.le
+    have hpt : @V3.sub K (fieldNum K sq) (@V3.add K (fieldNum K sq) ray.o (@V3.smul K (fieldNum K sq) ray.d t)) c
+        = @V3.sub K (fieldNum K sq) (rayPt sq ray t) c := rfl
+    simp only [V3.normalize, hpt, hnorm]
+    have hdot : @V3.dot K (fieldNum K sq) (@V3.sub K (fieldNum K sq) (rayPt sq ray t) c) ray.d
+        = @V3.normSq K (fieldNum K sq) ray.d * t + @V3.dot K (fieldNum K sq) (@V3.sub K (fieldNum K sq) ray.o c) ray.d := by
+      simp only [rayPt, Ray3.pointAt, V3.add, V3.sub, V3.smul, V3.normSq, V3.dot]; ring
+    have hne : r ≠ 0 := ne_of_gt hr
+    cases ins with
+    | false =>
+      simp only [Bool.false_eq_true, if_false] at hsign ⊢
+      refine ⟨?_, ?_, ?_⟩
+      · simp only [V3.smul, V3.sdiv, div_mul_cancel₀ _ hne]
+      · have : @V3.normSq K (fieldNum K sq) (@V3.sdiv K (fieldNum K sq) (@V3.sub K (fieldNum K sq) (rayPt sq ray t) c) r)
+            = @V3.normSq K (fieldNum K sq) (@V3.sub K (fieldNum K sq) (rayPt sq ray t) c) / (r * r) := by
+          simp only [V3.normSq, V3.dot, V3.sdiv]; field_simp
+        rw [this, hsph]; exact div_self (mul_ne_zero hne hne)
+      · have : @V3.dot K (fieldNum K sq) (@V3.sdiv K (fieldNum K sq) (@V3.sub K (fieldNum K sq) (rayPt sq ray t) c) r) ray.d
+            = @V3.dot K (fieldNum K sq) (@V3.sub K (fieldNum K sq) (rayPt sq ray t) c) ray.d / r := by
+          simp only [V3.dot, V3.sdiv]; field_simp
+        rw [this, hdot]
+        exact div_nonpos_of_nonpos_of_nonneg hsign hr.le
+    | true =>
+      simp only [if_true] at hsign ⊢
+      refine ⟨?_, ?_, ?_⟩
+      · simp only [V3.smul, V3.sdiv, V3.neg, neg_mul, div_mul_cancel₀ _ hne]
+      · have : @V3.normSq K (fieldNum K sq) (@V3.neg K (fieldNum K sq) (@V3.sdiv K (fieldNum K sq) (@V3.sub K (fieldNum K sq) (rayPt sq ray t) c) r))
+            = @V3.normSq K (fieldNum K sq) (@V3.sub K (fieldNum K sq) (rayPt sq ray t) c) / (r * r) := by
+          simp only [V3.normSq, V3.dot, V3.sdiv, V3.neg]; field_simp
+        rw [this, hsph]; exact div_self (mul_ne_zero hne hne)
+      · have : @V3.dot K (fieldNum K sq) (@V3.neg K (fieldNum K sq) (@V3.sdiv K (fieldNum K sq) (@V3.sub K (fieldNum K sq) (rayPt sq ray t) c) r)) ray.d
+            = -(@V3.dot K (fieldNum K sq) (@V3.sub K (fieldNum K sq) (rayPt sq ray t) c) ray.d / r) := by
+          simp only [V3.dot, V3.sdiv, V3.neg]; field_simp; ring
+        rw [this, hdot]
+        exact neg_nonpos.2 (div_nonneg hsign hr.le)
+
+
+/-- **posed = local ∘ inverse transform (generic).** A result is the first hit of the local set `S` along the
+inverse-transformed ray iff it is the first hit of the posed set `{p | m⁻¹•p ∈ S}` along the world ray — same `toi`. -/
+theorem firstHit_posed (S : V3 K → Prop) (m : Iso3 K) (ray : Ray3 K) (max : K) (r : Option K) :
+    letI := fieldNum K sq
+    FirstHit S (rayPt sq (ray.invTransform m)) max r ↔ FirstHit (fun p => S (m.invAct p)) (rayPt sq ray) max r := by
+  cases r <;> simp only [FirstHit, rayPt_invTransform]
+
+/-- world normal `m.rot n` against the world direction equals the local normal against the local direction (unit `q`) -/
+theorem posed_normal_dot (m : Iso3 K) (n d : V3 K)
+    (hq : m.qi * m.qi + m.qj * m.qj + m.qk * m.qk + m.qw * m.qw = 1) :
+    letI := fieldNum K sq
+    (m.rot n).dot d = n.dot (m.invRot d) := by
+  have h1 := rot_dot sq m n (@Iso3.invRot K (fieldNum K sq) m d) hq
+  rw [rot_invRot sq m d hq] at h1
+  exact h1
+
+/-- the time reported by `cast_local_ray_and_get_normal` is the one of `cast_local_ray` -/
+theorem ball_getNormal_toi (s : Ball K) (ray : Ray3 K) (max : K) (solid : Bool) :
+    letI := fieldNum K sq
+    (s.castLocalRayAndGetNormal ray max solid).map (·.toi) = s.castLocalRay ray max solid := by
+  simp only [Ball.castLocalRayAndGetNormal, Ball.castLocalRay, rayToiAndNormalWithBall]
+  rcases @rayToiWithBall K (fieldNum K sq) (@V3.zero K (fieldNum K sq)) s.r ray solid with ⟨ins, inter⟩
+  cases inter with
+  | none => rfl
+  | some t =>
+    simp only [Option.map_some, Option.filter]
+    by_cases hm : t ≤ max <;> simp [hm]
+
+/-- **Ball, posed form (`cast_ray_and_get_normal`), solid.** For a unit rotation and a non-zero world direction the time
+returned is the first hit of the posed ball `{p | m⁻¹•p ∈ ball}` along the *world* ray, in units of the world
+direction. -/
+theorem ball_posed_solid_firstHit (hs : LawfulSqrt sq) (s : Ball K) (m : Iso3 K) (ray : Ray3 K) (max : K)
+    (hq : m.qi * m.qi + m.qj * m.qj + m.qk * m.qk + m.qw * m.qw = 1) :
+    letI := fieldNum K sq
+    0 < ray.d.normSq →
+    FirstHit (fun p => s.Mem3 (m.invAct p)) (rayPt sq ray) max ((s.castRayAndGetNormal m ray max true).map (·.toi)) := by
+  intro ha
+  have hd : 0 < @V3.normSq K (fieldNum K sq) (@Ray3.invTransform K (fieldNum K sq) ray m).d := by
+    show 0 < @V3.dot K (fieldNum K sq) (@Iso3.invRot K (fieldNum K sq) m ray.d) (@Iso3.invRot K (fieldNum K sq) m ray.d)
+    rw [invRot_dot sq m _ _ hq]; exact ha
+  have h := ball_cast_solid_firstHit sq hs s (@Ray3.invTransform K (fieldNum K sq) ray m) max hd
+  rw [← ball_getNormal_toi] at h
+  have e : (@Ball.castRayAndGetNormal K (fieldNum K sq) s m ray max true).map (·.toi)
+      = (@Ball.castLocalRayAndGetNormal K (fieldNum K sq) s (@Ray3.invTransform K (fieldNum K sq) ray m) max true).map (·.toi) := by
+    simp only [Ball.castRayAndGetNormal, Option.map_map]; rfl
+  rw [e]
+  exact (firstHit_posed sq _ m ray max _).1 h
+
+/-- **`toi_units`, Ball.** Casting along `l·d` (`l > 0`) with `max/l` divides the time by `l` (solid cast). -/
+theorem ball_toi_units (hs : LawfulSqrt sq) (s : Ball K) (ray : Ray3 K) (l max : K) (hl : 0 < l) :
+    letI := fieldNum K sq
+    0 < ray.d.normSq →
+    s.castLocalRay ⟨ray.o, ray.d.smul l⟩ (max / l) true = (s.castLocalRay ray max true).map (· / l) := by
+  intro ha
+  have ha' : 0 < @V3.normSq K (fieldNum K sq) (@V3.smul K (fieldNum K sq) ray.d l) := by
+    have : @V3.normSq K (fieldNum K sq) (@V3.smul K (fieldNum K sq) ray.d l) = l * l * @V3.normSq K (fieldNum K sq) ray.d := by
+      simp only [V3.normSq, V3.dot, V3.smul]; ring
+    rw [this]; positivity
+  exact toi_units_of_firstHit sq _ ray l max hl _ _ (ball_cast_solid_firstHit sq hs s ray max ha)
+    (ball_cast_solid_firstHit sq hs s ⟨ray.o, @V3.smul K (fieldNum K sq) ray.d l⟩ (max / l) ha')
+
+
 /-- non-vacuity: a non-unit direction (`|d| = 2`), an origin outside and an origin inside the unit ball, over `ℝ` -/
 example : letI := fieldNum ℝ Real.sqrt
     (0:ℝ) < (V3.mk 2 0 0 : V3 ℝ).normSq ∧ ¬ BallAt Real.sqrt ⟨0,0,0⟩ 1 (⟨-3,0,0⟩ : V3 ℝ) ∧ BallAt Real.sqrt ⟨0,0,0⟩ 1 (⟨1/2,0,0⟩ : V3 ℝ)
       ∧ ¬ SphereAt Real.sqrt ⟨0,0,0⟩ 1 (⟨1/2,0,0⟩ : V3 ℝ) := by
   simp only [BallAt, SphereAt, Ball.Mem3, V3.normSq, V3.dot, V3.sub]; norm_num
+
+/-! ## HalfSpace (`ray_halfspace.rs`, corrected parallel-ray behaviour) -/
+
+/-- **HalfSpace cast, `solid = true`** (corrected parallel-ray behaviour), any non-zero or zero direction, `max_toi ≥ 0`:
+the reported time is the first parameter of `[0,max_toi]` in the half-space `{p | n·p ≤ 0}`; `None` ⇒ the segment misses it. -/
+theorem halfspace_cast_solid_firstHit (s : HalfSpace3 K) (ray : Ray3 K) (max : K) (hmax : 0 ≤ max) :
+    letI := fieldNum K sq
+    FirstHit s.Mem (rayPt sq ray) max ((s.castLocalRayAndGetNormal ray max true).map (·.toi)) := by
+  have lin := halfspace_lin sq s ray
+  simp only [HalfSpace3.castLocalRayAndGetNormal, halfspace_dpos sq s ray, apply_ite (Option.map (fun h : Hit3 K => h.toi)),
+    Option.map_some, Option.map_none, true_and]
+  generalize @V3.dot K (fieldNum K sq) s.n ray.o = al at lin ⊢
+  generalize @V3.dot K (fieldNum K sq) s.n ray.d = be at lin ⊢
+  have mem : ∀ u, @HalfSpace3.Mem K (fieldNum K sq) s (rayPt sq ray u) ↔ al + be * u ≤ 0 := fun u => by
+    unfold HalfSpace3.Mem; rw [lin]
+  split_ifs with h1 h2 h3 h4
+  · -- strictly inside
+    refine ⟨le_refl _, hmax, (mem 0).2 (by have : 0 < -al := h1; linarith), fun u h h' => absurd h' (not_lt.2 h)⟩
+  · -- parallel, origin on the plane
+    rw [neq_zero_iff] at h2 h3
+    refine ⟨le_refl _, hmax, (mem 0).2 (by linarith), fun u h h' => absurd h' (not_lt.2 h)⟩
+  · -- parallel, origin off the plane (hence outside)
+    rw [neq_zero_iff] at h2
+    have h3' : al ≠ 0 := fun h => h3 ((neq_zero_iff sq _).2 (by rw [h]; simp))
+    have hal : 0 < al := by
+      rcases lt_or_gt_of_ne h3' with h | h
+      · exact absurd (by linarith : 0 < -al) h1
+      · exact h
+    intro u hu _ hm
+    rw [mem, h2] at hm; linarith
+  · -- crossing within range
+    have hbe : be ≠ 0 := fun h => h2 ((neq_zero_iff sq _).2 h)
+    have hal : 0 ≤ al := by
+      by_contra h; push Not at h
+      exact h1 (by linarith)
+    refine ⟨h4.1, h4.2, (mem _).2 (le_of_eq (hs_root al be hbe)), ?_⟩
+    intro u hu hut hm
+    rw [mem] at hm
+    have hr := hs_root al be hbe
+    -- al ≥ 0, root ≥ 0 ⇒ be < 0 or al = 0 (then t = 0, vacuous)
+    rcases lt_or_gt_of_ne hbe with hb | hb
+    · nlinarith
+    · have : -al / be ≤ 0 := div_nonpos_of_nonpos_of_nonneg (by linarith) hb.le
+      linarith [h4.1]
+  · -- no crossing within range
+    have hbe : be ≠ 0 := fun h => h2 ((neq_zero_iff sq _).2 h)
+    have hal : 0 ≤ al := by
+      by_contra h; push Not at h
+      exact h1 (by linarith)
+    intro u hu hum hm
+    rw [mem] at hm
+    have hr := hs_root al be hbe
+    apply h4
+    rcases lt_or_gt_of_ne hbe with hb | hb
+    · -- be < 0: the root is ≥ 0 and ≤ u ≤ max
+      have h0 : 0 ≤ -al / be := div_nonneg_of_nonpos (by linarith) hb.le
+      refine ⟨h0, le_trans ?_ hum⟩
+      by_contra hc; push Not at hc
+      nlinarith
+    · -- be > 0: al + be u ≤ 0 with al ≥ 0, u ≥ 0 forces al = 0 = u·be
+      have hal0 : al = 0 := by nlinarith [mul_nonneg hb.le hu]
+      subst hal0
+      simp only [neg_zero, zero_div]
+      exact ⟨le_refl _, hmax⟩
+
+/-- **HalfSpace cast, `solid = false`**: for *every* origin (inside, outside, on the plane) the reported time is the first
+parameter of `[0,max_toi]` on the boundary plane `n·p = 0`; `None` ⇒ the segment never touches the plane.
+(From outside this is also the first point of the half-space; from inside it is the exit.) -/
+theorem halfspace_cast_nonsolid_firstHit (s : HalfSpace3 K) (ray : Ray3 K) (max : K) (hmax : 0 ≤ max) :
+    letI := fieldNum K sq
+    FirstHit (PlaneOf sq s) (rayPt sq ray) max ((s.castLocalRayAndGetNormal ray max false).map (·.toi)) := by
+  have lin := halfspace_lin sq s ray
+  simp only [HalfSpace3.castLocalRayAndGetNormal, halfspace_dpos sq s ray, apply_ite (Option.map (fun h : Hit3 K => h.toi)),
+    Option.map_some, Option.map_none, Bool.false_eq_true, false_and, if_false]
+  generalize @V3.dot K (fieldNum K sq) s.n ray.o = al at lin ⊢
+  generalize @V3.dot K (fieldNum K sq) s.n ray.d = be at lin ⊢
+  have mem : ∀ u, PlaneOf sq s (rayPt sq ray u) ↔ al + be * u = 0 := fun u => by
+    unfold PlaneOf; rw [lin]
+  split_ifs with h2 h3 h4
+  · rw [neq_zero_iff] at h2 h3
+    refine ⟨le_refl _, hmax, (mem 0).2 (by rw [h2]; linarith), fun u h h' => absurd h' (not_lt.2 h)⟩
+  · rw [neq_zero_iff] at h2
+    have h3' : al ≠ 0 := fun h => h3 ((neq_zero_iff sq _).2 (by rw [h]; simp))
+    intro u _ _ hm
+    rw [mem, h2] at hm; exact h3' (by linarith)
+  · have hbe : be ≠ 0 := fun h => h2 ((neq_zero_iff sq _).2 h)
+    refine ⟨h4.1, h4.2, (mem _).2 (hs_root al be hbe), ?_⟩
+    intro u _ hut hm
+    rw [mem] at hm
+    have hu : u = -al / be := by field_simp; linarith
+    exact absurd hu (ne_of_lt hut)
+  · have hbe : be ≠ 0 := fun h => h2 ((neq_zero_iff sq _).2 h)
+    intro u hu hum hm
+    rw [mem] at hm
+    have hu' : u = -al / be := by field_simp; linarith
+    exact h4 ⟨hu' ▸ hu, hu' ▸ hum⟩
+
+/-- **HalfSpace, non-solid from strictly inside**: every parameter up to the reported exit time is in the half-space. -/
+theorem halfspace_nonsolid_inside_before (s : HalfSpace3 K) (ray : Ray3 K) (max : K) (hmax : 0 ≤ max) (t : K) :
+    letI := fieldNum K sq
+    s.n.dot ray.o < 0 → (s.castLocalRayAndGetNormal ray max false).map (·.toi) = some t →
+    ∀ u, 0 ≤ u → u ≤ t → s.Mem (rayPt sq ray u) := by
+  intro hin hres u hu hut
+  have fh := halfspace_cast_nonsolid_firstHit sq s ray max hmax
+  rw [hres] at fh
+  obtain ⟨h0, _, hp, _⟩ := fh
+  have lin := halfspace_lin sq s ray
+  unfold PlaneOf at hp
+  unfold HalfSpace3.Mem
+  rw [lin] at hp ⊢
+  rcases eq_or_lt_of_le hut with h | h
+  · rw [h]; exact le_of_eq hp
+  · have ht : 0 < t := lt_of_le_of_lt hu h
+    nlinarith
+
+/-- **HalfSpace normal.** Origin strictly outside ⇒ the reported normal is the outward normal `n` and `n·d < 0`;
+origin strictly inside and `solid = false` ⇒ it is `−n` (facing the ray from inside) and `(−n)·d < 0`. -/
+theorem halfspace_normal_spec (s : HalfSpace3 K) (ray : Ray3 K) (max : K) (solid : Bool) (h : Hit3 K) :
+    letI := fieldNum K sq
+    s.castLocalRayAndGetNormal ray max solid = some h →
+    (0 < s.n.dot ray.o → h.n = s.n ∧ h.n.dot ray.d < 0) ∧
+    (s.n.dot ray.o < 0 → solid = false → h.n = s.n.neg ∧ h.n.dot ray.d < 0) := by
+  simp only [HalfSpace3.castLocalRayAndGetNormal, halfspace_dpos sq s ray]
+  have negdot : @V3.dot K (fieldNum K sq) (@V3.neg K (fieldNum K sq) s.n) ray.d = -(@V3.dot K (fieldNum K sq) s.n ray.d) := by
+    simp only [V3.neg, V3.dot]; ring
+  generalize @V3.dot K (fieldNum K sq) s.n ray.o = al at *
+  generalize hbe : @V3.dot K (fieldNum K sq) s.n ray.d = be at *
+  intro hres
+  split_ifs at hres with h1 h2 h3 h4 h5
+  · -- solid, inside
+    cases hres
+    exact ⟨fun ha => absurd h1.2 (by linarith), fun _ hs => by rw [hs] at h1; exact absurd h1.1 (by simp)⟩
+  · rw [neq_zero_iff] at h3
+    exact ⟨fun ha => absurd h3 (by linarith), fun ha _ => absurd h3 (by linarith)⟩
+  · -- 0 < -al : inside
+    cases hres
+    have hb : be ≠ 0 := fun h => h2 ((neq_zero_iff sq _).2 h)
+    refine ⟨fun ha => absurd h5 (by linarith), fun ha _ => ⟨rfl, ?_⟩⟩
+    show @V3.dot K (fieldNum K sq) (@V3.neg K (fieldNum K sq) s.n) ray.d < 0
+    rw [negdot]
+    -- t = -al/be ≥ 0 with -al > 0 ⇒ be > 0
+    rcases lt_or_gt_of_ne hb with hb' | hb'
+    · have : -al / be < 0 := div_neg_of_pos_of_neg h5 hb'
+      linarith [h4.1]
+    · linarith
+  · cases hres
+    have hb : be ≠ 0 := fun h => h2 ((neq_zero_iff sq _).2 h)
+    refine ⟨fun ha => ⟨rfl, ?_⟩, fun ha _ => absurd ha (by push Not at h5; linarith)⟩
+    show @V3.dot K (fieldNum K sq) s.n ray.d < 0
+    rw [hbe]
+    rcases lt_or_gt_of_ne hb with hb' | hb'
+    · exact hb'
+    · have : -al / be < 0 := div_neg_of_neg_of_pos (by linarith) hb'
+      linarith [h4.1]
+
+
+/-- **`toi_units`, HalfSpace (solid).** -/
+theorem halfspace_toi_units (s : HalfSpace3 K) (ray : Ray3 K) (l max : K) (hl : 0 < l) (hmax : 0 ≤ max) :
+    letI := fieldNum K sq
+    (s.castLocalRayAndGetNormal ⟨ray.o, ray.d.smul l⟩ (max / l) true).map (·.toi)
+      = ((s.castLocalRayAndGetNormal ray max true).map (·.toi)).map (· / l) :=
+  toi_units_of_firstHit sq _ ray l max hl _ _ (halfspace_cast_solid_firstHit sq s ray max hmax)
+    (halfspace_cast_solid_firstHit sq s ⟨ray.o, @V3.smul K (fieldNum K sq) ray.d l⟩ (max / l) (div_nonneg hmax hl.le))
+
+/-- non-vacuity (half-space): a ray parallel to the plane from inside, a crossing ray with `|d| = 5`, over `ℚ` -/
+example : letI := fieldNum ℚ id
+    ((HalfSpace3.mk ⟨0,1,0⟩ : HalfSpace3 ℚ).n.dot (⟨0,-1,0⟩ : V3 ℚ) < 0) ∧
+    (0 : ℚ) < (HalfSpace3.mk ⟨0,1,0⟩ : HalfSpace3 ℚ).n.dot (⟨0,2,0⟩ : V3 ℚ) ∧ (0:ℚ) ≤ 7 := by
+  simp only [V3.dot]; norm_num
 
 end C04
